@@ -18,6 +18,7 @@ from tradingenv.library import FeatureSpread, FeaturePortfolioWeight
 from tradingenv.broker.fees import BrokerFees
 from tradingenv.broker.broker import EndOfEpisodeError
 from tradingenv.broker.trade import Trade
+from tradingenv.policy import AbstractPolicy
 
 from vf import alone, ep, core
 
@@ -40,7 +41,7 @@ RULE = ("Twin runs compared bit-for-bit on canonical digests (observation arrays
 ASSUMPTIONS = ["call-level interleavings only (single-threaded); thread pre-emption inside step() is outside the property's quantifier",
                "chain spans cover every time used in the process except in the dedicated K3 scenario"]
 REQUIRED = ["C10:fresh-identical", "C10:after-history", "C10:interleaved", "C10:all-interleavings",
-            "C10:same-as-alone-in-fresh-interpreter"]
+            "C10:same-as-alone-in-fresh-interpreter", "C10:backtest-same-as-step-loop", "C10:copy-continues-identically"]
 REQUIRED_CATS = ["scenario:used-transmitter-other-latency", "kind:xy", "alone-kind:xy", "alone-kind:spot", "alone-kind:chain", "kind:chain", "kind:spot", "kind:discrete", "history:abandon", "history:full", "history:otherfold", "history:error",
                  "history:insolvency", "history:windowed", "scenario:K3-construction", "kind:default-state"]
 TECHNIQUE = "runtime monitoring: twin-run comparison of canonical call digests; exhaustive call-level interleavings of two short episodes"
@@ -223,6 +224,32 @@ def episode(env, acts, fold, upto=None):
     return out
 
 
+class Scripted(AbstractPolicy):
+    """A policy that plays a fixed list of actions (for TradingEnv.backtest)."""
+
+    def __init__(self, acts):
+        self.acts = list(acts)
+        self.k = 0
+
+    def act(self, state=None):
+        a = self.acts[self.k]
+        self.k += 1
+        return a
+
+
+def record_digest(env):
+    """The track record of the episode just played, entry by entry."""
+    trk = env.broker.track_record
+    out = []
+    for j in range(len(trk)):
+        rb = trk[j]
+        out.append((rb.time, float(rb.context_pre.nlv).hex(), float(rb.context_post.nlv).hex(),
+                    tuple((str(t.contract), float(t.quantity).hex(), float(t.bid_price).hex(), float(t.ask_price).hex())
+                          for t in rb.trades),
+                    tuple(sorted((str(c), float(q).hex()) for c, q in rb.context_post.nr_contracts.items()))))
+    return out
+
+
 def differs_only_in_identity(a, b):
     """True when two traces differ only in the identity flags of a space-less
     default state (known finding K2)."""
@@ -339,6 +366,33 @@ def case(ctx, i, tier):
     # fresh identical build
     A2, _, _, _ = build(specA)
     compare(ctx, "C10:fresh-identical", episode(A2, aA, fold), TA, dsA, spec=specA)
+    if specA[0] != "default-state" and TA[-1][3] and rng.random() < 0.4:
+        # the same actions through the other public way of running an episode, TradingEnv.backtest(policy)
+        A3, _, _, _ = build(specA)
+        want_rec = record_digest(A)
+        A3.backtest(fold, policy=Scripted(aA))
+        got_rec = record_digest(A3)
+        ctx.check("C10:backtest-same-as-step-loop", got_rec == want_rec, spec=specA, fold=fold,
+                  entries=[len(got_rec), len(want_rec)],
+                  first_diff=next((j for j, (x, y) in enumerate(zip(got_rec, want_rec)) if x != y), None))
+        ctx.cat("backtest-entry-point")
+    if specA[0] not in ("default-state", "xy") and len(TA) > 3 and rng.random() < 0.3:
+        # a deep copy taken mid-episode (a checkpoint): the copy and the original, stepped in turns with the same
+        # remaining actions, both continue exactly as the uninterrupted episode does
+        import copy
+        A4, _, _, _ = build(specA)
+        cut = rng.randint(1, len(TA) - 2)
+        pre = [first_call(A4, fold)] + [snap(A4, *A4.step(aA[j])) for j in range(cut)]
+        A5 = copy.deepcopy(A4)
+        o4, o5 = list(pre), list(pre)
+        j = cut
+        while not o4[-1][3] and j < len(aA):
+            o5.append(snap(A5, *A5.step(aA[j])))
+            o4.append(snap(A4, *A4.step(aA[j])))
+            j += 1
+        compare(ctx, "C10:copy-continues-identically", o5, TA, False, spec=specA, who="copy", cut=cut)
+        compare(ctx, "C10:copy-continues-identically", o4, TA, False, spec=specA, who="original", cut=cut)
+        ctx.cat("deep-copy-mid-episode")
     # the same object after other episodes
     hist = []
     for _ in range(rng.randint(1, 3)):
